@@ -540,4 +540,110 @@ theorem unshift_spec (junk : α) (l : PList α) (wf : l.Wf) (x : α) :
 
 end PList
 
+/-! ### sorted-array helpers -/
+
+/-- non-decreasing, pointwise -/
+def Mono (a : List Int) : Prop := ∀ i j : Nat, i ≤ j → j < a.length → a.getD i 0 ≤ a.getD j 0
+
+theorem mono_of_sorted (a : List Int) (h : a.Pairwise (· ≤ ·)) : Mono a := by
+  intro i j hij hj
+  rw [List.pairwise_iff_getElem] at h
+  have hi : i < a.length := by omega
+  simp only [List.getD_eq_getElem?_getD, List.getElem?_eq_getElem hi, List.getElem?_eq_getElem hj, Option.getD_some]
+  rcases Nat.lt_or_eq_of_le hij with h1 | h1
+  · exact h i j hi hj h1
+  · subst h1; exact Int.le_refl _
+
+/-- outcome of the shared binary search -/
+def SearchOk (a : List Int) (v : Int) : Sum Nat Nat → Prop
+  | .inl i => i < a.length ∧ a.getD i 0 = v
+  | .inr i => i ≤ a.length ∧ (∀ j : Nat, j < i → a.getD j 0 < v) ∧ (∀ j : Nat, i ≤ j → j < a.length → v < a.getD j 0)
+
+theorem bsearch_spec (a : List Int) (v : Int) (mono : Mono a) : ∀ (fuel : Nat) (lb ub : Int),
+    0 ≤ lb → ub < a.length → lb ≤ ub → ub - lb + 1 < fuel →
+    (∀ i : Nat, (i : Int) < lb → a.getD i 0 < v) → (∀ i : Nat, ub < (i : Int) → i < a.length → v < a.getD i 0) →
+    SearchOk a v (bsearch a v fuel lb ub) := by
+  intro fuel
+  induction fuel with
+  | zero => intro lb ub _ _ _ hf; omega
+  | succ fuel ih =>
+    intro lb ub h0 h1 h2 hf hlo hhi
+    unfold bsearch
+    simp only
+    have hidx1 : lb ≤ (ub + lb) / 2 := by omega
+    have hidx2 : (ub + lb) / 2 ≤ ub := by omega
+    have hlen : ((ub + lb) / 2).toNat < a.length := by omega
+    split
+    · rename_i hx
+      exact ⟨hlen, hx⟩
+    · split
+      · rename_i hne hx
+        have hbelow : ∀ i : Nat, (i : Int) < (ub + lb) / 2 + 1 → a.getD i 0 < v := by
+          intro i hi
+          have := mono i ((ub + lb) / 2).toNat (by omega) hlen
+          omega
+        split
+        · refine ⟨by omega, ?_, ?_⟩
+          · intro j hj; exact hbelow j (by omega)
+          · intro j hj hjl; exact hhi j (by omega) hjl
+        · exact ih _ _ (by omega) h1 (by omega) (by omega) hbelow hhi
+      · rename_i hne hx
+        have hgt : v < a.getD ((ub + lb) / 2).toNat 0 := by omega
+        have habove : ∀ i : Nat, (ub + lb) / 2 - 1 < (i : Int) → i < a.length → v < a.getD i 0 := by
+          intro i hi hil
+          have := mono ((ub + lb) / 2).toNat i (by omega) hil
+          omega
+        split
+        · refine ⟨by omega, ?_, ?_⟩
+          · intro j hj; exact hlo j (by omega)
+          · intro j hj hjl; exact habove j (by omega) hjl
+        · exact ih _ _ h0 (by omega) (by omega) (by omega) hlo habove
+
+theorem search_spec (a : List Int) (v : Int) (h : a.Pairwise (· ≤ ·)) : SearchOk a v (search a v) := by
+  unfold search
+  split
+  · rename_i he
+    have : a = [] := by simpa using he
+    subst this
+    exact ⟨by simp, by intro j hj; omega, by intro j _ hj; simp at hj⟩
+  · rename_i he
+    have hne : 0 < a.length := by
+      cases a with
+      | nil => simp at he
+      | cons _ _ => simp
+    exact bsearch_spec a v (mono_of_sorted a h) _ _ _ (by omega) (by omega) (by omega) (by omega)
+      (by intro i hi; omega) (by intro i hi hil; omega)
+
+theorem getD_of_mem (a : List Int) (x : Int) (h : x ∈ a) : ∃ i, i < a.length ∧ a.getD i 0 = x := by
+  obtain ⟨i, hi, rfl⟩ := List.mem_iff_getElem.1 h
+  exact ⟨i, hi, by simp [List.getD_eq_getElem?_getD, List.getElem?_eq_getElem hi]⟩
+
+theorem mem_of_getD (a : List Int) (i : Nat) (hi : i < a.length) : a.getD i 0 ∈ a := by
+  simp [List.getD_eq_getElem?_getD, List.getElem?_eq_getElem hi]
+
+/-- inserting `v` at a position with everything before ≤ v and everything from there on ≥ v keeps the order -/
+theorem sorted_insert_at (a : List Int) (v : Int) (i : Nat) (h : a.Pairwise (· ≤ ·)) (hi : i ≤ a.length)
+    (hb : ∀ j : Nat, j < i → a.getD j 0 ≤ v) (ha : ∀ j : Nat, i ≤ j → j < a.length → v ≤ a.getD j 0) :
+    (a.take i ++ v :: a.drop i).Pairwise (· ≤ ·) := by
+  rw [List.pairwise_append, List.pairwise_cons]
+  refine ⟨h.sublist (List.take_sublist _ _), ⟨?_, h.sublist (List.drop_sublist _ _)⟩, ?_⟩
+  · intro x hx
+    obtain ⟨j, hj, rfl⟩ := List.mem_iff_getElem.1 hx
+    have := ha (i + j) (by omega) (by simp at hj; omega)
+    simpa [List.getD_eq_getElem?_getD, List.getElem?_eq_getElem (show i + j < a.length by simp at hj; omega)] using this
+  · intro x hx y hy
+    obtain ⟨j, hj, rfl⟩ := List.mem_iff_getElem.1 hx
+    have hj' : j < i ∧ j < a.length := by simp at hj; omega
+    have hxv := hb j hj'.1
+    simp only [List.getD_eq_getElem?_getD, List.getElem?_eq_getElem hj'.2, Option.getD_some] at hxv
+    rw [List.getElem_take]
+    rcases List.mem_cons.1 hy with rfl | hy
+    · exact hxv
+    · obtain ⟨k, hk, rfl⟩ := List.mem_iff_getElem.1 hy
+      have := ha (i + k) (by omega) (by simp at hk; omega)
+      simp only [List.getD_eq_getElem?_getD, List.getElem?_eq_getElem (show i + k < a.length by simp at hk; omega), Option.getD_some] at this
+      rw [List.getElem_drop]
+      omega
+
+
 end IwModel.Arr
